@@ -2,6 +2,7 @@
 //! Every sub-command reads TLC-generated vectors (ndjson) and/or draws seeded inputs, drives the
 //! real library, and writes ndjson records that TLC trace specifications evaluate.
 
+mod configmod;
 mod crammod;
 mod diffmod;
 mod escapemod;
@@ -21,6 +22,7 @@ fn main() {
         "diff-probe" => diffmod::probe(&args),
         "rules-replay" => rulesmod::replay(&args),
         "md-replay" => mdmod::replay(&args),
+        "config-replay" => configmod::replay(&args),
         "update-replay" => updatemod::replay(&args),
         "gen-replay" => genmod::replay(&args),
         "escape-replay" => escapemod::replay(&args),
